@@ -610,6 +610,8 @@ def oracle_c09(op, design, out, ctx):
         st.inc("probes", "c09:%s-nocheck" % path)
     if len(cands) > 1:
         st.inc("probes", "c09:multi-candidate")
+    if bool(info[1]):
+        st.inc("probes", "c09:%s-check-dropped-something" % path)
     st.states.add("%s/%s/c%s/%s/heap%s" % (path, "nocheck" if check is None else "check",
                                           "0" if not cands else "1" if len(cands) == 1 else "n",
                                           "+".join(sorted(set(op.get("faults", [])))) or "clean", op.get("heap", 1000)))
